@@ -22,6 +22,8 @@ import (
 	"strings"
 	"time"
 
+	"github.com/ProtonMail/gluon/db"
+
 	"verifharness/common"
 )
 
@@ -413,6 +415,10 @@ func runC03(ctx *common.Ctx) error {
 			{Kind: "NOOP", S: 1}, {Kind: "MOVE", S: 0, Set: "3", Box: "b1"}, {Kind: "SELECT", S: 1, Box: "b2"}, {Kind: "NOOP", S: 1}, sto(1, "1:*", "+", `\Answered`),
 			app(0, "b2", "q2"), {Kind: "EXAMINE", S: 1, Box: "b3"}, {Kind: "SELECT", S: 1, Box: "b1"}, app(0, "b1", "p4"), {Kind: "SELECT", S: 1, Box: "b2"},
 			sto(1, "1:*", "+", `\Deleted`), {Kind: "EXPUNGE", S: 1}}},
+		{"copy-move-sets-not-ascending", 1, []op{sel(0, "b1"), app(0, "b1", "k1"), app(0, "b1", "k2"), app(0, "b1", "k3"), app(0, "b1", "k4"), app(0, "b1", "k5"),
+			{Kind: "MOVE", S: 0, Set: "3,1", Box: "b2"}, {Kind: "COPY", S: 0, Set: "3:2,1", Box: "b2"}, {Kind: "SELECT", S: 0, Box: "b2"},
+			{Kind: "MOVE", S: 0, UID: true, Set: "4,2:3,2", Box: "b3"}, {Kind: "COPY", S: 0, UID: true, Set: "5,1", Box: "b1"}, {Kind: "MOVE", S: 0, Set: "*,1", Box: "b2"},
+			{Kind: "SELECT", S: 0, Box: "b3"}, {Kind: "COPY", S: 0, Set: "2,2:3,1", Box: "b3"}, {Kind: "MOVE", S: 0, UID: true, Set: "6:4", Box: "b1"}}},
 		{"stale-targets", 2, []op{sel(0, "b1"), sel(1, "b1"), app(0, "b1", "s1"), app(0, "b1", "s2"), {Kind: "COPY", S: 0, Set: "1", Box: "b2"},
 			sto(0, "1", "+", `\Deleted`), {Kind: "EXPUNGE", S: 0}, sto(1, "1", "+", "late"), {Kind: "MOVE", S: 1, Set: "1", Box: "b2"},
 			{Kind: "COPY", S: 1, Set: "1", Box: "b3"}, {Kind: "EXPUNGE", S: 1}}},
@@ -485,6 +491,14 @@ func runC03(ctx *common.Ctx) error {
 			{Kind: "SELECT", Box: "b2"},
 			{Kind: "COPY", Set: "1:2", Box: "b1"},
 			{Kind: "MOVE", UID: true, Set: "3", Box: "b1"}}},
+		{"store-keyword-add+remove", []op{
+			{Kind: "STORE", Set: "1:*", Act: "+", Flags: []string{"kw"}},
+			{Kind: "STORE", UID: true, Set: "2:*", Act: "+", Silent: true, Flags: []string{`\Flagged`, "kw2"}},
+			{Kind: "STORE", Set: "1:*", Act: "-", Flags: []string{"KW"}},
+			{Kind: "STORE", UID: true, Set: "1:*", Act: "-", Flags: []string{"kw2", "Foo"}}}},
+		{"move-not-ascending", []op{
+			{Kind: "MOVE", Set: "*,2:3,1", Box: "b2"},
+			{Kind: "COPY", UID: true, Set: "*,5:4", Box: "b2"}}},
 		{"uidstore-silent+close", []op{
 			{Kind: "STORE", UID: true, Set: "1:*", Act: "+", Silent: true, Flags: []string{`\Deleted`}},
 			{Kind: "CLOSE", Box: "b1"}}},
@@ -500,12 +514,15 @@ func runC03(ctx *common.Ctx) error {
 				batches = append(batches, batchRun{size, v})
 			}
 		}
+		batches = append(batches, batchRun{db.ChunkLimit + 3, variants[6]})
 	} else {
 		// removing 1001 messages in one command and bringing some of them back (the membership index must have been cleaned), plus one other variant
 		back := []variant{variants[4], variants[5]}
 		batches = append(batches, batchRun{1001, back[rng.Pick(2)]})
-		rest := append(append([]variant{}, variants[:4]...), variants[6:]...)
+		rest := append(append([]variant{}, variants[:4]...), variants[7:]...)
 		batches = append(batches, batchRun{1001, rest[rng.Pick(len(rest))]})
+		// more than one statement batch of flag rows: every message must get / lose the keyword (one size in the quick tier)
+		batches = append(batches, batchRun{db.ChunkLimit + 3, variants[6]})
 	}
 	for _, b := range batches {
 		scen++
